@@ -116,6 +116,17 @@ CHECKS.update({
    technique='Coq-proved sound effect analysis on AST-extracted programs; snapshot-based dynamic correspondence',
    ref='DESIGN.md section 7, C20'),
 })
+CHECKS.update({
+ 'C16': dict(
+   text='Machine-checked proof (Coq) about an executable model of the tree/vine construction (all tau matrices incl. ties and NaN, all tie-break/set orders): number of trees max 1 (min (d-1) t) and edge counts, '
+        'first tree star / Hamiltonian path / spanning tree with the greedy cut property, k-th trees star / path / spanning tree of the constraint graph, child conditioned/conditioning sets, proximity '
+        '(iff at levels 2-3), full regular-vine property for centre and direct vines and for regular vines up to the default truncation 3, a proved-sound executable validator, plus limits found by the proofs '
+        '(escape branch diverges, NaN breaks greediness). Tie: the real Tree classes are driven with synthetic tau matrices (exhaustive rank orderings for d<=4 in thorough) with numpy/set orders replayed, and real '
+        'VineCopula.fit outputs are replayed and validated by vm_compute; every edge copula is what select_copula returned and admissible.',
+   note=TB + 'Model.Vine is hand-written (correspondence); numpy argsort tie order and Python set order are replayed as recorded data; general proximity beyond tree 3 and no-pair-twice for regular vines are only validated per run, not proved.',
+   technique='Coq proof over hand-written graph-construction model; replayed vm_compute correspondence + proved-sound validator on implementation output',
+   ref='DESIGN.md section 7, C16'),
+})
 NOT_YET = {}
 def main():
     props = [json.loads(l) for l in open(os.path.join(V, 'properties.jsonl'))]
